@@ -352,6 +352,23 @@ class OpsMixin:
                 break
         self.note_op("grow_size", "waiting" if self.pending_work(pr) else "idle")
 
+    def op_init_size(self, step, issuer):
+        """The size is given by assignment instead of in the constructor: allowed as long as the pool has never had a
+        request (C01: 'the size the pool was given', fixed while tasks are in flight)."""
+        pr = self.pools[step["pool"]]
+        if pr.reqs or pr.tasks or pr.closed or pr.locked or pr.size_changed:
+            return
+        v = step["v"]
+        self.ev("op_call", "init_size", pr.idx, v)
+        try:
+            pr.obj.pool_size = float("inf") if v is None else v
+        except Exception as e:  # noqa: BLE001
+            self.violate("C15.negative", f"pool_size = {v} raised {type(e).__name__}")
+            return
+        pr.size = v
+        self.sit["C01.size_given_by_assignment" + (".was_unbounded" if step.get("was_none") else "")] += 1
+        self.note_op("init_size", "idle")
+
     def op_set_size(self, step, issuer):
         pr = self.pools[step["pool"]]
         v = step["v"]
